@@ -313,6 +313,7 @@ def bankMsgSend (cfg : Cfg) (c : Ctx) (to : String) (denom : String) (amt : Int)
   | none => .err "bank:to-address"
   | some dst =>
     if amt ≤ 0 || !validDenom denom then .err "bank:coins"
+    else if c.ext.sendDisabled denom then .err "bank:send-disabled"
     else if c.ext.blocked dst then .err "bank:blocked"
     else c.send cfg.orbAddr dst denom amt.toNat "bank:insufficient"
 
